@@ -1,7 +1,7 @@
 """C11 - emitted text is a well-formed C body with sound companion metadata."""
 import re
 
-from .. import boot, gen, run, diff, staticrun
+from .. import boot, gen, run, diff, staticrun, progcheck
 from . import static_common
 
 EXCLUDED = {"const_cond"}
@@ -45,6 +45,44 @@ def getter_worker(names):
     return p.d
 
 
+AFTER_FAILURE_OK = ["{ RdV = RsV + RtV; }", "{ RdV = clz32(RsV); }", "{ int32_t a = RsV; a++; RdV = a; }",
+                    "{ RdV = ({ int32_t t = RsV; t; }) + 1; }", "{ if (RsV) { RdV = 1; } else { RdV = clo32(RtV); } }",
+                    "{ for (i = 0; i < 2; i++) { RxV += i; } }", "{ mem_store_u32(RsV, RtV); }", "{ PdV = (PsV & PtV); }"]
+AFTER_FAILURE_FAIL = ["{ const int32_t cc = 1; cc = clz32(RsV); }", "{ int32_t k = 0; RdV = (k++, 2); }", "{ RdV = clz32(RsV, clo32(RtV)); }",
+                      "{ RdV = clz32(RsV) + c11_unknown(RtV); }", "{ int32_t k0 = RsV; RdV = k0++ + c11_unknown(k0); }",
+                      "{ RdV = ({ int32_t q = RsV; q; }) + c11_unknown(RtV); }", "{ RdV = clo32(clz32(RsV)) + *RtV; }"]
+
+
+def after_failure_worker(fmt):
+    """the text returned right after a compilation that ended in an exception (with value-producing operations
+    already pending) must still be a well-formed body: nothing of the rejected behaviour may leak into it"""
+    from . import c14
+    p = run.Part()
+    c = boot.new_compiler(fmt)
+    resolver = diff.make_resolver(c)
+    subinfo = staticrun.SubInfo()
+    fails = list(c14.FAILING) + AFTER_FAILURE_FAIL
+    for i, bad in enumerate(fails):
+        for j in range(3):
+            st, _ = progcheck.try_compile(c, bad)
+            if st == "ok":
+                p.count("after-failure: 'failing' program accepted")
+                break
+            good = AFTER_FAILURE_OK[(i + j) % len(AFTER_FAILURE_OK)]
+            p.ev()
+            st, il = progcheck.try_compile(c, good)
+            if st != "ok":
+                p.failure(f"C11 after-failure: accepted behaviour raises after a rejected one [{fmt}]", {"failing": bad, "program": good, "fmt": fmt, "error": il})
+                continue
+            p.nontriv(("after-failure", bad, good, fmt))
+            kinds = {}
+            for kind, msg in staticrun.check_text("C11", il, good, resolver, subinfo):
+                kinds.setdefault(kind, msg)
+            for kind, msg in kinds.items():
+                p.failure(f"C11 after-failure {kind} [{fmt}]", {"failing": bad, "program": good, "fmt": fmt, "issue": msg, "il": il})
+    return p.d
+
+
 def run_check(ctx):
     ctx.rule = ("every accepted corpus part (thorough: all; quick: 120 stratified) and every bundled sub-routine definition in both "
                 "layouts + Hypothesis programs (many operands, folded constants, hybrids); checks statement shapes, declared-once, "
@@ -53,6 +91,7 @@ def run_check(ctx):
     ctx.assumptions = ["plugin vocabulary = identifiers hi/pkt/bundle and names starting HEX_ / RZ_FLOAT_ (documented macros/enums)"]
     static_common.run_static(ctx, "C11", FEATURES, extra_fn=meta_issues)
     run.run_sharded(ctx, getter_worker, [(sorted(boot.corpus()),)], procs=1)
+    run.run_sharded(ctx, after_failure_worker, [("stmt",), ("exec",)], procs=2)
 
 
 def replay(rep):
